@@ -67,21 +67,23 @@ Print Assumptions C13_excluded_means.
 Theorem C13_former_counterexamples_hold :
   forallb (fun i => holds_C13 nofl (model_case nofl cfg_current i) && holds_C14 nofl (model_case nofl cfg_current i)
                     && holds_C15 nofl (model_case nofl cfg_current i))
-          [wit_C13_w1; wit_C13_w2; wit_C14_w1; wit_C15_w1; wit_C15_w2; wit_C15_w3; wit_C15_w4; wit_C15_w6] = true.
+          [wit_C13_w1; wit_C13_w2; wit_C14_w1; wit_C15_w1; wit_C15_w2; wit_C15_w3; wit_C15_w4; wit_C15_w5; wit_C15_w6] = true.
 Proof. exact repaired_witnesses_hold. Qed.
 Print Assumptions C13_former_counterexamples_hold.
 
-(* sync_superset (new job): a job missing in the destination is cloned whole — every path of the source job
-   (sub-directories included, whatever `recursive` says) leads to the same bytes *)
-Theorem C13_cloned_job_exact : forall frepr cf o id sd ws p,
+(* sync_superset (new job) — /repo as it is: a job missing in the destination is cloned whole, sub-directories
+   included whatever `recursive` says: every path of the source job none of whose names matches a user exclude
+   pattern (the state point and the document never count as excluded) leads to the same bytes; for a file that
+   is `File c NOW`, for a directory the copy of the directory without the excluded names *)
+Theorem C13_cloned_job_exact : forall frepr o id sd ws p,
   o_dry_run o = false -> alookup id ws = None ->
-  fix_excl cf = false \/ forallb (fun k => negb (clone_excl o k)) p = true ->
-  lookup_path (id :: p) (Dir (fst (clone_or_sync frepr cf o (id, Dir sd) ws)))
+  forallb (fun k => negb (clone_excl o k)) p = true ->
+  lookup_path (id :: p) (Dir (fst (clone_or_sync frepr cfg_current o (id, Dir sd) ws)))
   = match lookup_path p (Dir sd) with
-    | Some y => Some (touch (if fix_excl cf then prune (clone_excl o) y else y))
+    | Some y => Some (touch (prune (clone_excl o) y))
     | None => None
     end.
-Proof. exact clone_paths. Qed.
+Proof. exact clone_paths_current. Qed.
 Print Assumptions C13_cloned_job_exact.
 
 (* every selected job of a successful project-level run is processed as the job-level code would, on the
